@@ -456,6 +456,22 @@ def evaluate(prop, cases, tmpdir, tag):
     return cases, obs, fails
 
 
+def _translator_trust(prop):
+    """trusted-base lines for the theorem files that connect regenerated definitions to the hand model"""
+    pf = getattr(prop, "PROPS", "")
+    pf = [pf] if isinstance(pf, str) else list(pf)
+    out = ["translator harness/vharness/anchors.py -> Generated/Anchors.v (constants and tables re-read from /repo on this run)"]
+    if any(x.endswith(("C10gen.v", "TieGen.v", "C15gen.v", "C18gen.v", "C12gen.v", "C14gen.v")) for x in pf):
+        out.append("translator harness/vharness/pytrans.py -> Generated/PyFuncs.v (pure Python fragment -> Gallina, fail-closed per "
+                   "function; vocabulary Model/PyPrims.v; semantic assumptions in DESIGN.md, C10gen / TieGen addendum)")
+    if any(x.endswith(("C09gen.v", "C19gen.v", "C03gen.v", "C05gen.v")) for x in pf):
+        out.append("translator harness/vharness/pytrans_ctrl.py -> Generated/PyCtrl.v (imperative wrappers by state passing, fuelled "
+                   "loops; vocabulary Model/PyCtrlPrims.v; DESIGN.md, C09gen / C19gen addendum)")
+    if any(x.endswith("C20gen.v") for x in pf):
+        out.append("translator harness/vharness/anchors_effects.py -> Generated/EffectSummaries.v (effect summaries; DESIGN.md, C20 addendum)")
+    return out
+
+
 def shrink_failure(prop, case, code, tmpdir, max_rounds=12, width=48):
     """Greedy shrinking: keep any smaller case on which the same code still fires."""
     if not hasattr(prop, "shrink"):
@@ -700,7 +716,7 @@ def _main(prop, tier, seed, replay, tmpdir, t0):
                     "none (every theorem closed under the global context)"
                     if all(not a for a in proof_state["assumptions"].values()) else json.dumps(proof_state["assumptions"])),
                 "harness: generators, Python->Gallina serialiser, worker isolation (vharness/)",
-            ] + list(getattr(prop, "TRUSTED", [])),
+            ] + list(getattr(prop, "TRUSTED", [])) + _translator_trust(prop),
             "theorems": proof_state["theorems"],
             "assumptions_by_theorem": proof_state["assumptions"],
             "coqchk": proof_state.get("coqchk", "not run in this tier (thorough only)"),
